@@ -58,6 +58,15 @@ def default_desc():
     }
 
 
+class _NormalizedData:
+    """the user function of a FunctionGrid: returns a fixed normalised vector (a class, not a lambda: picklable for save/load)"""
+    def __init__(self, nz):
+        self.nz = list(nz)
+
+    def __call__(self, N):
+        return list(self.nz)
+
+
 def make_grid(rockit, g):
     import_rockit()
     from rockit import UniformGrid, GeometricGrid, FreeGrid
@@ -80,7 +89,7 @@ def make_grid(rockit, g):
         return FreeGrid(**kw)
     if k == 'data':
         nz = [float(v) for v in g['nz']]
-        return FunctionGrid(lambda N, nz=nz: list(nz), **kw)
+        return FunctionGrid(_NormalizedData(nz), **kw)
     if k == 'density_poly':
         from rockit.sampling_method import DensityGrid
         import casadi as ca
